@@ -112,7 +112,12 @@ qb_log_dcs_get(int32_t * newly_created,
 	/*
 	 * try the fastest access first.
 	 */
-	rc = qb_array_index(lookup_arr, lineno, (void **)&csl_head);
+	/*
+	 * the lookup array has 2^16 slots: line numbers beyond that share
+	 * the slots of the lower ones (and are told apart below)
+	 */
+	rc = qb_array_index(lookup_arr, lineno % QB_ARRAY_MAX_ELEMENTS,
+			    (void **)&csl_head);
 	assert(rc == 0);
 
 	/*
@@ -122,6 +127,7 @@ qb_log_dcs_get(int32_t * newly_created,
 	 */
 	(void)qb_thread_lock(arr_next_lock);
 	if (csl_head->cs &&
+		lineno == csl_head->cs->lineno &&
 		priority == csl_head->cs->priority &&
 		(message_id ? (strcmp(message_id, csl_head->cs->message_id) == 0) : 1) &&
 		strcmp(safe_filename, csl_head->cs->filename) == 0 &&
@@ -143,8 +149,8 @@ qb_log_dcs_get(int32_t * newly_created,
 		*newly_created = QB_TRUE;
 	} else {
 		for (csl = csl_head; csl; csl = csl->next) {
-			assert(csl->cs->lineno == lineno);
-			if (priority == csl->cs->priority &&
+			if (lineno == csl->cs->lineno &&
+			    priority == csl->cs->priority &&
 			    strcmp(safe_format, csl->cs->format) == 0 &&
 			    strcmp(safe_function, csl->cs->function) == 0 &&
 			    strcmp(safe_filename, csl->cs->filename) == 0) {
